@@ -1,5 +1,6 @@
 """C10 — ORDER BY / LIMIT / OFFSET: guard and comparator-agreement clauses only."""
 from .util import *
+import json
 
 EXPLANATION = """
 Claimed narrowly. Decides: (a) the query handler rejects OFFSET without LIMIT before anything executes; (b) the comparator copies used by the per-flow sorts
@@ -17,8 +18,8 @@ yields ub = 0 for every zone whose first rank exceeds the cut-off.
 that calls evaluate_at depends on the `limit` argument (matches deeper in a zone than the remaining limit would be masked out as if they had failed the predicate).
 Does NOT decide: the remaining arithmetic of the RLTE planner (which min/max a partial ladder yields, zone sizes after compaction), slice positions, typed order of ScalarValue::compare (value level).
 """
-FLOOR = 10
-REQUIRED = ["C10.a", "C10.b", "C10.c", "C10.d", "C10.e1", "C10.e2", "C10.f", "C10.g", "C10.h", "C10.i"]
+FLOOR = 11
+REQUIRED = ["C10.a", "C10.b", "C10.c", "C10.d", "C10.e1", "C10.e2", "C10.f", "C10.g", "C10.h", "C10.i", "C10.j"]
 
 COPIES = ["engine::core::read::segment_query_runner::compare_scalar_values",
           "engine::core::read::flow::operators::memtable_source::compare_scalar_values",
@@ -373,3 +374,56 @@ def run(ctx):
                 bad.append(("stream-bypasses-merge-task", "OrderedStreamMerger::merge hands back a stream that does not read from the merge task's channel (a shard's own receiver, or a return before the task is started): OFFSET rows are not skipped and LIMIT is the shard-level cap LIMIT + OFFSET", sp(m, c.bb)))
         return bad
     ctx.run("C10.i", "K7 PROV + K1", "command::handlers::query::merge::streaming::OrderedStreamMerger::merge", "every ordered result passes the one task that applies OFFSET and LIMIT", i_)
+
+    def j_(inst):
+        """The ORDER BY ... LIMIT zone pre-selection (RLTE) ranks ZONES by the sort field before any row is read. It may only be engaged
+        where a zone's rows end up in the result by that rank: (1) not for aggregate queries (their ORDER BY / LIMIT apply to the
+        merged groups; every zone feeds them) - RlteCoordinator::should_plan answers true only behind `aggs == None`; (2) a zone about
+        whose sort values nothing is known (ladder with non-numeric entries) is kept: lb_ub_one_numeric answers the constant pair
+        (0, 0) only for an empty ladder / zero zone size."""
+        bad = []
+        b = F.fn("RlteCoordinator::should_plan")
+        trues = [i_ for i_ in sorted(b.live_blocks()) for st in b.blocks[i_]["s"] if st.get("a") == [0] and (st.get("v") or {}).get("r") == "use" and str((st["v"]["o"] or {}).get("k", "")).startswith("true")]
+        if not trues:
+            raise AnchorMissing("the `true` answer of RlteCoordinator::should_plan")
+        agg_none = []
+        for i_ in sorted(b.live_blocks()):
+            t = b.blocks[i_]["t"]
+            if t["t"] != "switch":
+                continue
+            # the discriminant read feeding this switch
+            for st in b.blocks[i_]["s"]:
+                v = st.get("v") or {}
+                if v.get("r") == "discr" or "discriminant" in json.dumps(v):
+                    if ".aggs" in json.dumps(v):
+                        si = b.switch_info(i_)
+                        for k_, tgt in (si.get("edges") or {}).items():
+                            if str(k_) in ("0", "None"):
+                                agg_none.append((i_, tgt))
+        inst.sites.append("should_plan: `aggs == None` edges: %s" % [sp(b, i_) for i_, _ in agg_none])
+        for tb in trues:
+            if not agg_none or not any(b.dominates_edge(e, tb) for e in agg_none):
+                bad.append(("preselection-under-aggregate", "RlteCoordinator::should_plan engages the ORDER BY ... LIMIT zone pre-selection without testing that the query has no aggregations: zones are pruned before the groups are built (COUNT ... BY c ORDER BY c LIMIT 1 undercounts)", sp(b, tb)))
+        n = F.fn("RlteCatalog::lb_ub_one_numeric")
+        zero_pairs = []
+        for (bb, jx, v, dst) in n.aggregates_tuple() if hasattr(n, "aggregates_tuple") else []:
+            pass
+        for i_ in sorted(n.live_blocks()):
+            for st in n.blocks[i_]["s"]:
+                v = st.get("v") or {}
+                if v.get("r") == "agg" and v.get("ak") == "tuple" and st.get("a") == [0] and len(v.get("o", [])) == 2 and all(str(o.get("k", "")).startswith("0_") for o in v["o"]):
+                    zero_pairs.append(i_)
+        # every constant (0, 0) answer sits behind an emptiness / zero test, not behind `no number parsed`
+        def acc_empty(L):
+            return any(l[0] == "call" and re.search(r"(Vec|slice)::is_empty$|slice::len$|Vec::len$", norm_path(l[1])) for l in L) or any(l[0] == "param" for l in L)
+        empt = [c for c in n.calls if not c.cleanup and re.search(r"(Vec|slice)::is_empty$", c.nname) and any(l[0] == "call" and "ladder_as_numbers" in l[1] for l in n.origins(c.args[0]))]
+        edges_ = []
+        for c in empt:
+            edges_ += bool_result_edge(n, c, True)
+        for zb in zero_pairs:
+            on_numbers = any(n.dominates_edge(e, zb) for e in edges_)
+            inst.sites.append("lb_ub_one_numeric: constant (0, 0) @ %s is the answer for `no entry parsed as a number`: %s" % (sp(n, zb), on_numbers))
+            if on_numbers:
+                bad.append(("unknown-zone-pruned", "lb_ub_one_numeric answers (0, 0) - `no row of this zone can be in the result` - for a ladder none of whose entries parsed as a number (null / missing sort values): the zone is pruned although nothing is known about it", sp(n, zb)))
+        return bad
+    ctx.run("C10.j", "K8 GUARD", "RlteCoordinator::should_plan / RlteCatalog::lb_ub_one_numeric", "the zone pre-selection is engaged only where a zone's rank decides, and keeps zones it cannot rank", j_)
